@@ -2,7 +2,7 @@
    (C05): what a well-formed request is (`req`, `valid`), how a client writes it (`print`, with any letter case
    for command and option words, any accepted numeral for numbers) and which handler call it must produce
    (`expect`).  The C05 theorem is  decode (print r) = expect r  for every valid r. *)
-From Coq Require Import String.
+From Coq Require Import String QArith.
 From GR Require Import Base Resp Handler Exec.
 Open Scope Z_scope.
 
